@@ -2,12 +2,14 @@
 \* valid; every 16th graph (by pseudo-hash) is emitted for the replay.
 CONSTANTS
   Atomic = TRUE
+  SingleInPlace = FALSE
   DropDetached = TRUE
   Namespace = {1}
   M = 4
   MaxTs = 2
-  Classes = {"ok", "needs", "badSig", "rejectFirst", "rejectLater"}
+  Classes = {"ok", "needs", "badSig", "rf.redactMissing.d", "rf.redactMissing.g", "rf.editMissing.d", "rf.editMissing.g", "rf.reactMissing.d", "rf.reactMissing.g", "rf.replyMissing.d", "rf.replyMissing.g", "rf.badTitle.d", "rf.badTitle.g", "rf.label.g", "rejectLater"}
   MaxBad = 1
+  FullCauses = 0
   AllowDetached = FALSE
   Emit = TRUE
   EmitMod = 16
